@@ -972,6 +972,11 @@ pub fn run_nb(ctx: &mut Ctx) {
     for (i, f) in FEATS.iter().enumerate() { ctx.tr.scenario(&format!("c20snd-nb-permutation-{}", i)); nb_permutation(ctx, *f); }
 }
 
+/// the notification (event) queue only: also run under C19
+pub fn run_notifications(ctx: &mut Ctx) {
+    for (i, f) in [0u64, F_IND, F_EV, F_IND | F_EV | F_V1].iter().enumerate() { ctx.tr.scenario(&format!("c20snd-notifications-{}", i)); let n = ctx.budget(300, 10) as usize; notifications(ctx, *f, n); }
+}
+
 pub fn run(ctx: &mut Ctx) {
     ctx.tr.scenario("c20snd-finding-xfer-ok-status"); finding_xfer_ok_status(ctx);
     ctx.tr.scenario("c20snd-finding-jack-remap-panic"); finding_jack_remap_panic(ctx);
